@@ -13,7 +13,10 @@ from .. import core, tlc, cli
 from ..enc import blist
 from .. import world as W
 
-PARAMS = {'DEF': (11, 'ATGAC'), 'K1': (5, 'AT'), 'K2': (6, 'AT'), 'K3': (5, 'AC'), 'K4': (5, 'GT')}     # K4's prefix = revcomp(K3's)
+PARAMS = {'DEF': (11, 'ATGAC'), 'K1': (5, 'AT'), 'K2': (6, 'AT'), 'K3': (5, 'AC'), 'K4': (5, 'GT'),     # K4's prefix = revcomp(K3's)
+          'K5': (11, 'ATGACATGAC'), 'K6': (11, 'ATGACATG')}       # long prefixes: K6's is the first 8 nt of K5's, DEF's the first 5 of both
+MAIN_SET = ['DEF', 'K1', 'K2', 'K3', 'K4']
+LONG_SET = ['DEF', 'K5', 'K6']
 
 
 def make_genome(rng, base=None):
@@ -24,11 +27,13 @@ def make_genome(rng, base=None):
         blocks.append('AC' + W.rand_seq(rng, 7))
         blocks.append('GT' + W.rand_seq(rng, 6))
         blocks.append('GTCAT'[::1] + W.rand_seq(rng, 4))
+        blocks.append('ATGACATGAC' + W.rand_seq(rng, 12))
+        blocks.append('ATGACATGCA' + W.rand_seq(rng, 11))
     s = ''.join(blocks)
     return W.mutate(rng, base, 0.04) if base else s
 
 
-def setup(tmp, seed):
+def setup(tmp, seed, names):
     rng = random.Random(seed)
     base = make_genome(rng)
     qs = [[make_genome(rng, base)], [make_genome(rng, base)[:150], make_genome(rng)[:90]]]
@@ -38,7 +43,8 @@ def setup(tmp, seed):
         env['qfiles'].append(W.write_fasta(os.path.join(tmp, 'q', f'query{i}.fasta'), c))
     for i, c in enumerate(rs):
         env['rfiles'].append(W.write_fasta(os.path.join(tmp, 'r', f'ref{i}.fa' + ('.gz' if i == 1 else '')), c, gz=(i == 1)))
-    for name, (k, p) in PARAMS.items():
+    for name in names:
+        k, p = PARAMS[name]
         ks = KmerSpec(k, p)
         for side, seqs in (('q', qs), ('r', rs)):
             sigs = SignatureArray([W.real_signature([k, p], c) for c in seqs], ks)
@@ -97,10 +103,10 @@ def parse_dist_csv(text):
     return cells
 
 
-def run_set(ctx, tmp, seed):
+def run_set(ctx, tmp, seed, names=MAIN_SET):
     if True:
-        env = setup(tmp, seed)
-        table, _ = tlc.generate('Gen_Cli', cfg='Gen_Cli.cfg')
+        env = setup(tmp, seed, names)
+        table, _ = tlc.generate('Gen_Cli', cfg='Gen_Cli.cfg', overrides=dict(Params='{' + ', '.join(f'"{n}"' for n in names) + '}'))
         table.sort(key=core.canon)
         if ctx.tier == 'quick':
             # quick: every error row involving two pinned sources, and a third of the rest
@@ -143,6 +149,9 @@ def run(ctx):
             sub = os.path.join(tmp, f'set{rep}')
             os.makedirs(sub)
             recs += run_set(ctx, sub, ctx.seed + 31 * rep)
+        sub = os.path.join(tmp, 'long')
+        os.makedirs(sub)
+        recs += run_set(ctx, sub, ctx.seed + 7, LONG_SET)          # prefixes longer than 8 nt that agree on their first 5 / 8 nucleotides
         n, bad = tlc.judge('Judge_C14', recs)
         for i, why in bad:
             r = recs[i]
